@@ -23,6 +23,7 @@ Python → model (construction):
 * `_parent_` setter (`value._child_ = self`)          → `setParent`
 * `BinaryOperator.__post_init__/_update_children_`    → `mkBinop`
 * `_root_`, `_conditions_root_`                       → `rootOf`, `conditionsRoot`
+* several `with rule:` blocks on one rule, `Add` anywhere  → `Authored`, `Item`, `buildA`
 
 **(b) Evaluation**: `ExceptIf._evaluate__`, `Alternative._evaluate__` (over `ElseIf`/`OR.evaluate_left/right`),
 `Next._evaluate__` (over `Union`), `ConclusionSelector.update_conclusion` with the never-reset
@@ -429,6 +430,68 @@ end
 def build (q : Quirks) (p : Prog) : Option BState :=
   (BState.init p.blk).run q (Op.enterQuery :: (p.ops ++ [Op.exit]))
 
+/-! ### Multi-step authoring
+
+A rule tree need not be written in one `with rule:` block. The user may close the block and open
+`with rule:` again later (every `__enter__` of the rule pushes its — cached — conditions root), and the `Add`
+statements of the base rule may stand anywhere between the branches. `Authored` is a program together with
+that schedule; `Authored.toProg` is the program it means. -/
+
+/-- what stands at the top level of the `with rule:` blocks, in the order written -/
+inductive Item where
+  | kid (k : Kind) (p : Prog)   -- `with refinement(..)/alternative(..)/next_rule(..): …`
+  | reenter                     -- the `with rule:` block ends, a new `with rule:` block on the same rule begins
+  | add                         -- the `Add` statements of the base rule
+
+structure Authored where
+  blk : Nat
+  items : List Item
+
+/-- one branch block: the branch call, `with <it>:`, its body -/
+def kidOps (k : Kind) (p : Prog) : List Op :=
+  (match k with
+    | .ref => Op.refinement p.blk
+    | .alt => Op.alternative p.blk
+    | .next => Op.next p.blk) :: Op.enter :: (p.ops ++ [Op.exit])
+
+def Item.ops (b : Nat) : Item → List Op
+  | .kid k p => kidOps k p
+  | .reenter => [Op.exit, Op.enterQuery]
+  | .add => [Op.add b]
+
+def Authored.ops (a : Authored) : List Op := a.items.flatMap (Item.ops a.blk)
+
+def kidsOfItems : List Item → Kids
+  | [] => .nil
+  | .kid k p :: rest => .cons k p (kidsOfItems rest)
+  | _ :: rest => kidsOfItems rest
+
+def itemsOfKids : Kids → List Item
+  | .nil => []
+  | .cons k p rest => .kid k p :: itemsOfKids rest
+
+/-- the program an authoring schedule means: its branches in the order written -/
+def Authored.toProg (a : Authored) : Prog := .mk a.blk (kidsOfItems a.items)
+
+/-- the base rule's `Add` statements are written exactly once -/
+def Authored.oneAdd (a : Authored) : Bool :=
+  (a.items.filter fun i => match i with | .add => true | _ => false).length == 1
+
+/-- single-block authoring, conclusions first (what `Prog.ops` does) -/
+def Authored.ofProg (p : Prog) : Authored := ⟨p.blk, .add :: itemsOfKids p.kids⟩
+
+def Item.isReenter : Item → Bool
+  | .reenter => true
+  | _ => false
+
+/-- the same schedule without closing and re-opening the `with rule:` block -/
+def Authored.oneBlock (a : Authored) : Authored :=
+  ⟨a.blk, a.items.filter fun i => !i.isReenter⟩
+
+/-- **the builder** on an authoring schedule -/
+def buildA (q : Quirks) (a : Authored) : Option BState :=
+  (BState.init a.blk).run q (Op.enterQuery :: (a.ops ++ [Op.exit]))
+
 /-- read the selector tree that `Entity._evaluate__` will walk: `Entity._child_`, then `left`/`right`.
 `none` when the pointers do not bottom out within the fuel (cyclic) or are dangling -/
 def extractFrom (nodes : List Node) : Nat → Nat → Option Sel
@@ -674,22 +737,30 @@ inductive Obs where
 def buildShape (q : Quirks) (p : Prog) : Option Sel :=
   ((build q p).bind BState.tree).map Sel.shape
 
-/-- builder + evaluator under a quirk setting -/
-def model (q : Quirks) (pay : Payload) (p : Prog) (dom : List Nat) : Obs :=
-  match build q p with
+/-- evaluate what a (possibly failed) construction left behind -/
+def modelOf (built : Option BState) (d : Dedup) (pay : Payload) (dom : List Nat) : Obs :=
+  match built with
   | none => .raised
   | some st =>
     match st.tree with
     | none => .cyclic
     | some t =>
-      let rk := runK pay q.dedup dom st.nodes t
+      let rk := runK pay d dom st.nodes t
       if t.ids.Nodup then
-        let rt := topOuts (evalT pay q.dedup dom t none []).1
+        let rt := topOuts (evalT pay d dom t none []).1
         if rt = rk then .ok rt else .mismatch
       else .ok rk
 
+/-- builder + evaluator under a quirk setting -/
+def model (q : Quirks) (pay : Payload) (p : Prog) (dom : List Nat) : Obs :=
+  modelOf (build q p) q.dedup pay dom
+
 /-- the specification's observation for a program -/
 def spec (pay : Payload) (p : Prog) (dom : List Nat) : List (Nat × Nat) := specObs pay p.toRule dom
+
+/-- builder + evaluator for an authoring schedule -/
+def modelA (q : Quirks) (pay : Payload) (a : Authored) (dom : List Nat) : Obs :=
+  modelOf (buildA q a) q.dedup pay dom
 
 /-! ## Decidable triggers of the three findings (predicates on the program as written) -/
 
